@@ -72,6 +72,7 @@ func BuildWorlds(cfg Config, prop string, nFix, nSyn, rejectPct int, rich bool, 
 			case 3:
 				opts.SetupName = "catalog.go"
 				opts.Competing = true
+				opts.Collide = true
 			}
 			nAcc++
 		}
